@@ -1,10 +1,11 @@
 ---------------------------- MODULE Gen_MultiGen ----------------------------
 (* Enumerates all source-length vectors for replay of C07 into the real code. *)
-EXTENDS Naturals, Sequences, FiniteSets, SequencesExt, TLC, Json, IOUtils
+EXTENDS Naturals, Integers, Sequences, FiniteSets, SequencesExt, TLC, Json, IOUtils
 CONSTANTS MaxSrc, MaxLen
 Vecs(lo) == UNION {[1..k -> lo..MaxLen] : k \in 1..MaxSrc}
-Cases == {[lens |-> l, strategy |-> s, seed |-> 7] : l \in Vecs(0), s \in {"sequential", "interleaved"}}
-         \cup {[lens |-> l, strategy |-> "weighted", seed |-> sd] : l \in Vecs(1), sd \in {1, 2}}
+\* files = -1: in-memory sources; 0 / 1 / 2: jsonl files read by the library (LF, CRLF, no trailing newline)
+Cases == {[lens |-> l, strategy |-> s, seed |-> 7, files |-> f] : l \in Vecs(0), s \in {"sequential", "interleaved"}, f \in {0 - 1, 1, 2}}
+         \cup {[lens |-> l, strategy |-> "weighted", seed |-> sd, files |-> f] : l \in Vecs(1), sd \in {1, 2}, f \in {0 - 1, 0}}
 VARIABLE x
 Init == x = 0 /\ ndJsonSerialize(IOEnv.OUT, SetToSeq(Cases))
 Next == UNCHANGED x
